@@ -24,6 +24,7 @@ import (
 	"github.com/synnaxlabs/synnax/pkg/distribution/framer/writer"
 	"github.com/synnaxlabs/synnax/pkg/distribution/mock"
 	"github.com/synnaxlabs/synnax/pkg/distribution/node"
+	xcontrol "github.com/synnaxlabs/x/control"
 	"github.com/synnaxlabs/x/telem"
 )
 
@@ -56,6 +57,7 @@ type env struct {
 	keys    map[uint32]channel.Key // script id -> cluster key
 	st      *State
 	writers map[int]*writer.Writer
+	auths   map[int][]int
 	// non-triviality bookkeeping
 	spanCommitted map[uint32]int // channel -> gateway of a committed multi-leaseholder writer with gateway != some leaseholder
 	nontrivial    bool
@@ -499,6 +501,12 @@ func (e *env) run() error {
 		case "open":
 			cfg := writer.Config{Keys: e.clusterKeys(op.Channels), Start: telem.TimeStamp(op.Start),
 				EnableAutoCommit: &op.AutoCommit, Sync: &op.Sync}
+			for _, a := range op.Auth {
+				cfg.Authorities = append(cfg.Authorities, xcontrol.Authority(a))
+			}
+			if len(op.Auth) > 1 {
+				e.rep.Class("writer-with-per-channel-authorities")
+			}
 			w, err := e.nodes[op.Via].Framer.OpenWriter(e.ctx, cfg)
 			if err != nil {
 				e.rep.Discard("open-writer-error")
@@ -506,6 +514,7 @@ func (e *env) run() error {
 				return nil
 			}
 			e.writers[op.W] = w
+			e.auths[op.W] = op.Auth
 			ws := e.st.ApplyOpen(op)
 			e.classifyWriter(ws)
 		case "write":
@@ -520,6 +529,11 @@ func (e *env) run() error {
 				}
 			}
 			auth, err := e.writers[op.W].Write(e.buildFrame(ws, op))
+			if err == nil && !auth && ws.Sync {
+				// the only other writers a script opens on these channels are intruders with a
+				// strictly lower authority, so this writer holds control of all its channels
+				return kit.Fail("write-unauthorized-without-higher-authority", "%s: Write of writer %d (gateway node %d, channels %v, authorities %v) reported unauthorized although no writer with an equal or higher authority was ever opened on its channels", where, op.W, ws.Via, e.describe(ws.Channels), e.auths[op.W])
+			}
 			if err != nil || !auth {
 				e.rep.Discard("write-error")
 				e.rep.Add("discard:write:"+errText(fmt.Errorf("%v auth=%v", err, auth)), 1)
@@ -587,6 +601,54 @@ func (e *env) run() error {
 			}
 			e.noteRead(op.Via, ws.Leased)
 			e.rep.Class("post-commit-read")
+		case "intrude":
+			ws := e.st.Writers[op.W]
+			// OpenWriter returns once the open request has been sent to the remote leaseholders,
+			// not once they hold control; a writer opened right afterwards can reach a
+			// leaseholder first, be in control there for a moment, and leave its samples in the
+			// domain the first writer then commits. Which writer a leaseholder sees first is
+			// not part of C07, so the intruder is only opened after a synchronous round trip of
+			// the first writer (an acknowledged write, or a commit of nothing) has shown that
+			// every leaseholder has opened it.
+			if len(ws.PendTS) == 0 {
+				if _, err := e.writers[op.W].Commit(); err != nil {
+					e.rep.Discard("commit-error")
+					e.rep.Add("discard:barrier-commit:"+errText(err), 1)
+					return nil
+				}
+			} else if !ws.Sync {
+				e.rep.Class("intruder-not-opened:first-writer-not-acknowledged-yet")
+				break
+			}
+			sync := true
+			b, err := e.nodes[op.Via].Framer.OpenWriter(e.ctx, writer.Config{Keys: e.clusterKeys(op.Channels), Start: telem.TimeStamp(ws.Start),
+				Authorities: []xcontrol.Authority{xcontrol.Authority(op.Auth[0])}, Sync: &sync})
+			if err != nil {
+				e.rep.Class("intruder-open-refused")
+				e.rep.Add("intruder-open:"+errText(err), 1)
+				break
+			}
+			auth, werr := b.Write(e.buildFrame(&WState{Channels: op.Channels}, Op{TS: op.TS, Seed: op.Seed}))
+			_, cmErr := b.Commit()
+			clErr := b.Close()
+			if os.Getenv("VERIF_C07_DEBUG") != "" {
+				fmt.Printf("C07DEBUG %s intruder: auth=%v werr=%v commit=%v close=%v\n", where, auth, werr, cmErr, clErr)
+			}
+			hasLeased := false
+			for _, id := range op.Channels {
+				hasLeased = hasLeased || e.st.Chans[id].Lease != 0
+			}
+			if !hasLeased {
+				// free virtual channels are not stored and every write to them is acknowledged
+				e.rep.Class("intruder-on-free-channels-only")
+			} else if werr == nil && auth {
+				return kit.Fail("lower-authority-writer-authorized", "%s: a second writer opened through node %d on %v with authority %d reports its write as authorized although writer %d (gateway node %d, authorities %v on %v) is open with a higher authority on every one of these channels (commit: %v, close: %v)",
+					where, op.Via, e.describe(op.Channels), op.Auth[0], op.W, ws.Via, e.auths[op.W], e.describe(ws.Channels), cmErr, clErr)
+			}
+			e.rep.Class("intruder-with-lower-authority")
+			if len(e.auths[op.W]) > 1 {
+				e.rep.Class("intruder-against-per-channel-authorities")
+			}
 		case "close":
 			ws := e.st.Writers[op.W]
 			if len(ws.PendTS) > 0 {
@@ -613,6 +675,14 @@ func (e *env) run() error {
 			}
 			if err := e.checkRead(op.Via, op.Channels, op.A, op.B, where, "read-mismatch-via-gateway"); err != nil {
 				return err
+			}
+			if seen := map[uint32]bool{}; true {
+				for _, id := range op.Channels {
+					if seen[id] {
+						e.rep.Class("iterator-key-named-twice")
+					}
+					seen[id] = true
+				}
 			}
 			e.noteRead(op.Via, op.Channels)
 		case "unknown":
@@ -867,7 +937,7 @@ func executeOnce(sc Script, rep *kit.Report) (error, bool) {
 	}
 	done := make(chan outcome, 1)
 	e := &env{ctx: context.Background(), sc: sc, rep: rep, st: NewState(sc.Channels),
-		writers: map[int]*writer.Writer{}, spanCommitted: map[uint32]int{}}
+		writers: map[int]*writer.Writer{}, auths: map[int][]int{}, spanCommitted: map[uint32]int{}}
 	go func() {
 		var out outcome
 		defer func() {
